@@ -1129,3 +1129,46 @@ Proof.
   - unfold get_closest_objs. destruct (o_cs src); [|contradiction]. apply closest_rec_rings.
   - intros P Hs. apply up_chain_reaches_root; auto. pose proof (H_lt_fuel d P src Hs). unfold hfuel in *. lia.
 Qed.
+
+(* ================================================================== *)
+(* nbobjs / obj / index inside a cpuset                                *)
+
+Lemma level_ok_nth depth : forall lv start i o,
+  level_ok depth lv start = true -> nth_error lv i = Some o -> o_lidx o = N.of_nat (start + i).
+Proof.
+  induction lv as [|x tl IH]; intros start i o H E; [destruct i; discriminate|].
+  cbn [level_ok] in H. apply andb_true_iff in H as [H H3]. apply andb_true_iff in H as [_ H2]. apply N.eqb_eq in H2.
+  destruct i as [|i]; cbn [nth_error] in E.
+  - inversion E; subst. rewrite H2. f_equal. lia.
+  - rewrite (IH (S start) i o H3 E). f_equal. lia.
+Qed.
+
+(* for every object o of a level that the family counts (non-empty cpuset inside the set):
+   index_inside(o) is its position k in the brute-force list and obj_inside(k) is o again;
+   nbobjs is the length of that list; an object whose cpuset is not inside the set gets -1 *)
+Lemma inside_index_roundtrip_l lv depth set :
+  level_ok depth lv 0 = true ->
+  get_nbobjs_inside_cpuset_by_depth lv set = N.of_nat (List.length (filter (inside_pred set) lv)) /\
+  (forall o, In o lv -> inside_pred set o = true ->
+     exists k, get_obj_index_inside_cpuset lv set o = Z.of_nat k /\ (k < List.length (filter (inside_pred set) lv))%nat /\
+               get_obj_inside_cpuset_by_depth lv set (N.of_nat k) = Some o) /\
+  (forall o, bs_subset (dcs o) set = false -> get_obj_index_inside_cpuset lv set o = (-1)%Z) /\
+  (forall k o, get_obj_inside_cpuset_by_depth lv set k = Some o -> In o lv /\ inside_pred set o = true).
+Proof.
+  intros L. split; [reflexivity|]. split; [|split].
+  - intros o Ho Hp. apply In_nth_error in Ho as [i Hi].
+    pose proof (level_ok_nth depth lv 0 i o L Hi) as Hl. cbn [Nat.add] in Hl.
+    destruct (nth_error_split lv i Hi) as (l1 & l2 & E & Len).
+    exists (List.length (filter (inside_pred set) l1)).
+    unfold get_obj_index_inside_cpuset, get_obj_inside_cpuset_by_depth.
+    assert (Hs : bs_subset (dcs o) set = true) by (unfold inside_pred in Hp; now apply andb_true_iff in Hp).
+    rewrite Hs, Hl, !Nat2N.id. cbn [negb].
+    assert (F : firstn i lv = l1).
+    { rewrite E, <- Len. rewrite firstn_app, Nat.sub_diag, firstn_all. cbn [firstn]. apply app_nil_r. }
+    rewrite F. split; [reflexivity|].
+    rewrite E, filter_app. cbn [filter]. rewrite Hp. split.
+    + rewrite app_length. cbn [List.length]. lia.
+    + rewrite nth_error_app2 by lia. rewrite Nat.sub_diag. reflexivity.
+  - intros o Hs. unfold get_obj_index_inside_cpuset. now rewrite Hs.
+  - intros k o E. unfold get_obj_inside_cpuset_by_depth in E. apply nth_error_In in E. apply filter_In in E. exact E.
+Qed.
